@@ -19,6 +19,7 @@ RULE = ("Generated training runs: state type (3), n 1..3, N 1..9 rows (bases per
         "the batch size, k >= 1, >= 2 steps and (complex/density) a rotated row present.")
 RULE_EXT = ('Extended as built: up to three consecutive fit() stages (optionally reinitialising in between) on the same state, optimizer_args dict must be unchanged, positive batches must be data rows, neg_batch_size up to 300, polarised parameters / rare outcomes, runs stopped by a divergence guard are counted as excluded. Rounds 5-6: momentum / weight-decay optimizer_args with the reference recursion (fresh buffers per fit), StepLR(2) and ExponentialLR schedulers, uniformly negative polarised biases with a forced rare outcome in a basis with exactly one rotated site, num_aux = 0.')
 RULE_EXT += ' Round 10 (after an exception / long time axis): a fit() aborted by an exception in on_batch_end / on_epoch_end before the verified run; runs of 33-35 epochs.'
+RULE_EXT += ' Round 11 (re-entrant use / feature interactions): a busy callback (gen.busy_callback: read-only public calls on the trained state and a one-epoch fit of ANOTHER state from inside every hook) in 1 run of 4.'
 RULE = RULE + " " + RULE_EXT
 ASSUMPTIONS = ["outcomes drawn from the reference Born distribution at the initial parameters; a run is only followed while the reference gradient stays finite and < 1e6",
                "gradient tolerance 1e-6*(1+max|g_ref|), SGD update rtol 1e-12 (fused add differs from b - lr*g by 1 ulp)"]
